@@ -66,6 +66,10 @@ package machine
 //@   property C22 C23 C24
 //@   ensures r != nil && val(r) == i
 
+//@ func NewMonetaryIntFromBigInt(v *big.Int) (r *MonetaryInt)
+//@   property C27 C23
+//@   ensures (r == nil) == (v == nil) && (v != nil ==> val(r) == val(v))
+
 // ---- Funding (funding.go) ----------------------------------------------------------------------
 
 //@ func (f Funding) TakeMax(amount *MonetaryInt) (result Funding, remainder Funding)
